@@ -157,6 +157,16 @@ pub fn plan(p: u32, tier: &str) -> Vec<Run> {
         f4.follow = true;
         f4
     };
+    // a multi-output job whose outputs change independently, production naming and comparison
+    let split = |name: &str, follow: bool| {
+        let mut x = s(name, 3, m);
+        x.noise = true;
+        x.cmp = Cmp::Prod;
+        x.conv = Conv::Parts;
+        x.faults = vec![false, true, false];
+        x.follow = follow;
+        x
+    };
     let eph_shapes = ["late-requirement", "E-E-O+A", "E-E-E-O+A", "E-E-O+A-mid", "E-O-E-O"];
     match p {
         1 => {
@@ -165,6 +175,8 @@ pub fn plan(p: u32, tier: &str) -> Vec<Run> {
             add(s4d2ff(), families::slots(4));
             add(late3f(), families::late3x_oe());
             add(alone4(), families::slots_each_alone(4));
+            add(split("split-O", true), families::split_outputs(Kind::O, false));
+            add(split("split-E", true), families::split_outputs(Kind::E, false));
             add(late("latepair", true), families::late_pair());
             add(late("bigshapes", true), families::big_shapes());
             add(late("ephtrees", true), families::eph_trees());
@@ -280,6 +292,8 @@ pub fn plan(p: u32, tier: &str) -> Vec<Run> {
             add(s4d2ff(), families::slots(4));
             add(late3f(), families::late3x_oe());
             add(alone4(), families::slots_each_alone(4));
+            add(split("split-O", true), families::split_outputs(Kind::O, false));
+            add(split("split-E", true), families::split_outputs(Kind::E, false));
             add(late("late2x", true), families::late_gadget(2, true));
             add(late("latepair", true), families::late_pair());
             add(late("bigshapes", true), families::big_shapes());
@@ -422,6 +436,8 @@ pub fn plan(p: u32, tier: &str) -> Vec<Run> {
             add(s3(true), families::slots(3));
             add(s4(false), families::slots(4));
             add(s4d2ff(), families::slots(4));
+            add(split("split-O", true), families::split_outputs(Kind::O, false));
+            add(split("split-E", true), families::split_outputs(Kind::E, false));
             // a job id re-declared with another kind between evaluations (robustness only: a kind change is a
             // change of behaviour the engine is not told about, so the value-based oracles do not apply)
             add(s("kindswap2-D3", 3, m), families::slots_kindswap(2));
@@ -655,6 +671,8 @@ pub fn plan(p: u32, tier: &str) -> Vec<Run> {
             add(s4d2ff(), families::slots(4));
             add(late3f(), families::late3x_oe());
             add(alone4(), families::slots_each_alone(4));
+            add(split("split-O", true), families::split_outputs(Kind::O, false));
+            add(split("split-E", true), families::split_outputs(Kind::E, false));
             add(late("late2x+removals", true), families::with_slot_removals(families::late_gadget_full(2, true, true, None, false)));
             add(deep3("S3D4-ff", 4, vec![false; 4]), families::slots(3));
             add(deep3("S3D3-f010", 3, vec![false, true, false]), families::slots(3));
@@ -688,6 +706,8 @@ pub fn plan(p: u32, tier: &str) -> Vec<Run> {
             add(s4(true), families::slots(4));
             add(late3f(), families::late3x_oe());
             add(alone4(), families::slots_each_alone(4));
+            add(split("split-O", true), families::split_outputs(Kind::O, false));
+            add(split("split-E", true), families::split_outputs(Kind::E, false));
             add(noise("S3D2-noise+follow", 2, true, false), families::slots(3));
             let mut mono = noise("S3D2-mono+follow", 2, true, false);
             mono.cmp = Cmp::Mono;
@@ -824,6 +844,8 @@ pub fn plan(p: u32, tier: &str) -> Vec<Run> {
         }
         15 => {
             add(noise("S3D2-noise-twin+follow", 2, true, true), families::slots(3));
+            add(split("split-O", true), families::split_outputs(Kind::O, false));
+            add(split("split-E", true), families::split_outputs(Kind::E, false));
             // renamed multi-output upstreams whose records differ in the timestamp only
             let mut rn = rename("rename-prod-noise-twin", Conv::Parts, Cmp::Prod);
             rn.noise = true;
@@ -858,6 +880,7 @@ pub fn plan(p: u32, tier: &str) -> Vec<Run> {
             v4.faults = vec![false, true];
             add(v4, families::slots_volatile(4).into_iter().filter(|u| u.label.contains("EO") || u.label.contains("EE")).take(12).collect());
             add(late("late2x-volatile", true), families::late_gadget_volatile(2, true));
+            add(split("split-E-volatile-q", true), families::split_outputs(Kind::E, true));
             // a validated Ephemeral re-executed with the same content and a newer timestamp, under a
             // comparison that is not symmetric: the question must be asked as (recorded, reported)
             let mut mono = noise("S3D2-mono+follow", 2, true, false);
@@ -1307,6 +1330,9 @@ pub fn cmd_run(args: &[String]) -> i32 {
         "unread3" => families::slots_unread_edge(3),
         "volatile3" => families::slots_volatile(3),
         "volatile4" => families::slots_volatile(4),
+        "splitO" => families::split_outputs(Kind::O, false),
+        "splitE" => families::split_outputs(Kind::E, false),
+        "splitEv" => families::split_outputs(Kind::E, true),
         "rename" => families::rename(true, Kind::O),
         "rename-small" => families::rename_opts(false, Kind::O, false),
         "rename-y" => families::rename_opts(true, Kind::O, false),
